@@ -340,7 +340,7 @@ Proof. intros s s' T C. apply (Clean5_q5 s s'); [|exact C]. eapply TrExt_weaken;
 
 Lemma epoll_poll_CE : forall s abs, WS s -> is_epoll s = true ->
   (tasks s <> [] -> abs = Some 0 \/
-     (abs = None /\ forall s1, epoll_flush_pending (S (length (notify s))) s = R s1 ->
+     (abs = None /\ forall s1, epoll_flush_pending (S (length (notify s))) s = R s1 -> WS s1 ->
                      Due s1 (if method s =? M_ET then numfds s + 1 else if numfds s =? 0 then 1 else numfds s))) ->
   Clean S5 (mst s) -> Clean S5 (mst (res_state (fst (epoll_poll sc s abs)))).
 Proof.
@@ -360,7 +360,7 @@ Proof.
   pose proof (Clean5_ca _ _ T1 C) as C1.
   set (maxev := if method s =? M_ET then numfds s + 1 else if numfds s =? 0 then 1 else numfds s) in *.
   assert (H1 : tasks s1 <> [] -> abs = Some 0 \/ (abs = None /\ Due s1 maxev)).
-  { rewrite (as_tasks _ _ AS1). intros T. destruct (H T) as [E|[E D]]; [left; exact E|right; split; [exact E|apply D; reflexivity]]. }
+  { rewrite (as_tasks _ _ AS1). intros T. destruct (H T) as [E|[E D]]; [left; exact E|right; split; [exact E|apply D; [reflexivity|exact W1]]]. }
   pose proof (epoll_wait_m_CE s1 abs maxev W1 H1 C1) as C2.
   destruct (epoll_wait_m sc s1 abs maxev) as [s2 evs|s2|r]; cbn [wres_state fst res_state] in *.
   - pose proof (epoll_process_trace evs (invalidate_now s2) false false) as T4.
@@ -522,7 +522,7 @@ Qed.
 
 Lemma m_poll_CE : forall s abs, WS s ->
   (tasks s <> [] -> abs = Some 0 \/
-     (is_epoll s = true /\ abs = None /\ forall s1, epoll_flush_pending (S (length (notify s))) s = R s1 ->
+     (is_epoll s = true /\ abs = None /\ forall s1, epoll_flush_pending (S (length (notify s))) s = R s1 -> WS s1 ->
                      Due s1 (if method s =? M_ET then numfds s + 1 else if numfds s =? 0 then 1 else numfds s))) ->
   Clean S5 (mst s) -> Clean S5 (mst (res_state (fst (m_poll sc s abs)))).
 Proof.
@@ -535,8 +535,8 @@ Qed.
 
 (* iv_fd_poll_and_run; HK is what the kernel-timer invariant provides *)
 Lemma poll_and_run_CE : forall s abs, WS s -> (tasks s <> [] -> abs = Some 0) ->
-  (method s = M_ET -> tasks s <> [] -> forall s0, timeout_check s abs = (R s0, true) ->
-     forall s1, epoll_flush_pending (S (length (notify s0))) s0 = R s1 -> Due s1 (numfds s0 + 1)) ->
+  (method s = M_ET -> tasks s <> [] -> forall s0, timeout_check s abs = (R s0, true) -> WS s0 ->
+     forall s1, epoll_flush_pending (S (length (notify s0))) s0 = R s1 -> WS s1 -> Due s1 (numfds s0 + 1)) ->
   Clean S5 (mst s) -> Clean S5 (mst (res_state (fst (poll_and_run sc s abs)))).
 Proof.
   intros s abs W TA HK C. unfold poll_and_run.
@@ -565,7 +565,7 @@ Proof.
       destruct (m_poll sc s0 None) as [r rt]. cbn [fst] in *.
       assert (CR : Clean S5 (mst (res_state r))).
       { apply Q; [|exact C0]. rewrite T0. intros T. right. split; [exact IE0|split; [reflexivity|]].
-        intros s1 FL. rewrite M0, ME. cbn. apply (HK ME T s0 eq_refl s1 FL). }
+        intros s1 FL W1. rewrite M0, ME. cbn. apply (HK ME T s0 eq_refl W0 s1 FL W1). }
       destruct r as [s1|s1]; cbn [bind res_state] in *; [|exact CR]. destruct rt; exact CR.
     - apply m_poll_CE; [exact W0| |exact C0]. rewrite T0. intros T. left. apply TA. exact T. }
   destruct (if method s =? M_ET then _ else m_poll sc s abs) as [r rt]. cbn [fst] in *.
